@@ -686,7 +686,7 @@ class Run:
             for j in self.futs:
                 if self._fut(j) is h._args[0]:
                     return 'aw%d' % j
-        if 'try_killing' in q or (q.startswith('Process.init.<locals>') and h._args and h._args[0] is self.proc.future()):
+        if 'try_killing' in q or (q.startswith('Process.init.<locals>') and h._args and isinstance(h._args[0], asyncio.Future)):
             fut = h._args[0] if h._args else None
             return 'trykill' if fut is not None and fut.cancelled() else 'noise'
         return 'noise'
